@@ -362,7 +362,15 @@ func (e *FnEnc) encCall(cc *ssa.CallCommon, instr *ssa.Call, pos token.Pos) *Val
 		for _, a := range cc.Args {
 			args = append(args, e.val(a))
 		}
-		return e.opaqueCall(cc, args, resT, "func value "+cc.Value.Name(), true, pos)
+		fname := cc.Value.Name()
+		if ld, ok := cc.Value.(*ssa.UnOp); ok {
+			if fa, ok := ld.X.(*ssa.FieldAddr); ok {
+				if st, ok := fa.X.Type().Underlying().(*types.Pointer).Elem().Underlying().(*types.Struct); ok {
+					fname = st.Field(fa.Field).Name() // a function stored in a struct field: named after the field
+				}
+			}
+		}
+		return e.opaqueCall(cc, args, resT, "func value "+fname, true, pos)
 	}
 	if c == nil {
 		return e.opaqueCall(cc, args, resT, calleeName, isRepo, pos)
